@@ -108,4 +108,124 @@ def make(pid, fams):
     return f
 
 
-CHECKS = {"C06": make("C06", ["allimpacted", "longarcs"]), "C07": make("C07", ["allimpacted", "longarcs"]), "C08": make("C08", ["allimpacted", "longarcs"])}
+def cb_check(pid, plans, rule, viz=False):
+    """plans: list of (family, instances_q, instances_t, per_instance, extra)"""
+    def f(tier, replay):
+        chk = Check(pid, tier)
+        w = workdir(pid)
+        thorough = tier == "thorough"
+        if replay:
+            rp = json.load(open(replay))["replay"]
+            inst = os.path.join(w, "inst.json")
+            json.dump([rp["inst"]], open(inst, "w"))
+            a = rp["args"]
+            seed = a[a.index("--seed") + 1]
+            tr = os.path.join(w, "replay.ndjson")
+            run_bin("dd", ["--seed", seed, "--inst-file", inst, "--dd", rp["dd"], "--per-instance", 60, "--callbacks", "--out", tr] + (["--viz"] if viz else []))
+            res, r = validate("TraceCB", "TraceCB.cfg", tr, heap="6g")
+            evs = read_ndjson(tr)
+            for d in res["devs"]:
+                chk.violation(d[0], {"engine": "dd", "args": a, "dd": rp["dd"], "inst": rp["inst"], "event": evs[d[1] - 1] if not viz else {k: evs[d[1] - 1].get(k) for k in ("ev", "cfg", "f")}}, f"{d[0]} (replay)")
+            chk.cov.update({"evaluations": 60, "distinct_nontrivial": 2, "samples": [evs[1]]})
+            return chk.finish()
+        first = None
+        for i, (fam, nq, nt, per, extra) in enumerate(plans):
+            for _ in dd_runs_cb(chk, w, tier, fam, nt if thorough else nq, per, ["--callbacks"] + (["--viz"] if viz else []) + list(extra), f"cb{i}"):
+                pass
+        if pid in ("C12", "C13"):
+            # the compilations made while really solving (cache / dominance active): solver traces projected on the callback alphabet
+            import solvers
+            n = 40 if not thorough else 200
+            for mode, fam in (("base", "allimpacted"), ("cache", "allimpacted")):
+                tr0 = os.path.join(w, f"seqcb_{mode}.ndjson")
+                run_bin("seq", ["--seed", SEED * 1000 + 7, "--instances", n, "--family", fam, "--mode", mode, "--maxn", 6, "--callbacks", "--out", tr0])
+                tr = os.path.join(w, f"seqcb_{mode}_proj.ndjson")
+                with open(tr, "w") as out:
+                    for e in read_ndjson(tr0):
+                        if e["ev"] in ("reset", "compile", "cb", "compiled"):
+                            if e["ev"] == "reset":
+                                e["dd"] = e["dd"]
+                            out.write(json.dumps(e) + "\n")
+                cb_validate(chk, tr, ["--seed", SEED * 1000 + 7, "--mode", mode], in_solver=True)
+        if pid == "C13":
+            import components
+            components.c13_width(chk, w, tier)
+        chk.cov["rule"] = rule
+        chk.assumptions = ["the recording wrappers around Problem / Relaxation log every call with its arguments", "the DOT reader of the harness (five statement forms) is trusted"] if viz else \
+                          ["the recording wrappers around Problem / Relaxation log every call with its arguments"]
+        return chk.finish()
+    return f
+
+
+def dd_runs_cb(chk, w, tier, fam, n, per, extra, name):
+    thorough = tier == "thorough"
+    for b in range(1 if not thorough else 4):
+        tr = os.path.join(w, f"{name}_{fam}_{b}.ndjson")
+        args = ["--seed", SEED * 1000 + b, "--instances", n, "--per-instance", per, "--family", fam, "--out", tr] + extra
+        run_bin("dd", args)
+        cb_validate(chk, tr, args)
+        yield tr
+
+
+def cb_validate(chk, tr, args, in_solver=False):
+    res, r = validate("TraceCB", "TraceCB.cfg", tr, name=f"{chk.pid}_{os.path.basename(tr)}", heap="8g")
+    evs = read_ndjson(tr)
+    if res["total"] != len(evs):
+        raise ToolError("trace length mismatch")
+    runs = split_runs(evs)
+    resets = {rr[0]["run"]: rr[0] for rr in runs}
+    chk.cov["states"] += r["states"]
+    chk.cov["transitions"] += len(evs)
+    ncomp = sum(1 for e in evs if e["ev"] == "compiled")
+    ncb = sum(1 for e in evs if e["ev"] == "cb")
+    nviz = sum(1 for e in evs if e["ev"] == "viz")
+    chk.cov["evaluations"] += ncomp
+    chk.cov["callbacks_checked"] = chk.cov.get("callbacks_checked", 0) + ncb
+    chk.cov["drawings_checked"] = chk.cov.get("drawings_checked", 0) + nviz
+    chk.cov["merge_calls"] = chk.cov.get("merge_calls", 0) + sum(1 for e in evs if e["ev"] == "cb" and e["f"] == "merge")
+    chk.cov["relax_calls"] = chk.cov.get("relax_calls", 0) + sum(1 for e in evs if e["ev"] == "cb" and e["f"] == "relax")
+    chk.cov["traces_validated_against_impl"] += len(runs)
+    # distinct non-trivial: compilations with at least one merge (C12/C20) or more nodes than the width in some layer
+    cur, has = None, False
+    seen = chk.__dict__.setdefault("_seen", set())
+    for e in evs:
+        if e["ev"] == "compile":
+            cur, has = e, False
+        elif e["ev"] == "cb" and (e["f"] == "merge" or (e["f"] == "next_variable" and len(e["states"]) > cur["width"])):
+            has = True
+        elif e["ev"] == "compiled" and has:
+            key = json.dumps([cur["root"], cur["width"], cur["type"], cur["best_lb"]])
+            if key not in seen:
+                seen.add(key)
+                chk.cov["distinct_nontrivial"] += 1
+    if not chk.cov["samples"]:
+        k = next((i for i, e in enumerate(evs) if e["ev"] == "cb" and e["f"] == "relax"), 3)
+        chk.cov["samples"] = [{"callbacks": evs[max(1, k - 3):k + 2]}]
+        if nviz:
+            v = next(e for e in evs if e["ev"] == "viz" and len(e["nodes"]) > 3)
+            chk.cov["samples"].append({"drawing": {"cfg": v["cfg"], "nodes": v["nodes"][:4], "edges": v["edges"][:4], "terminal": v["terminal"]}})
+    for d in res["devs"]:
+        tag, line, run = d[0], d[1], d[2]
+        if tag.startswith("HARNESS"):
+            raise ToolError("ill-formed generated instance")
+        if tag.startswith("DIV"):
+            chk.cov["divergences"] += 1
+            log(f"  divergence (no verdict): {tag} at line {line} of {os.path.basename(tr)}")
+            continue
+        reset = resets[run]
+        e = evs[line - 1]
+        ev_short = e if e["ev"] != "viz" else {"ev": "viz", "cfg": e["cfg"], "terminal": e["terminal"], "nodes": len(e["nodes"]), "edges": len(e["edges"]), "malformed": e["malformed"][:3]}
+        chk.violation(tag, {"engine": "seq" if in_solver else "dd", "args": [str(a) for a in args], "run": run, "dd": reset["dd"], "inst": reset["inst"], "event": ev_short, "line": line},
+                      f"{tag}: {reset['dd']} diagram, family {reset['inst']['family']} long_arcs={reset['inst']['long_arcs']}, event {json.dumps(ev_short)[:500]}")
+
+
+CB_RULE = ("every call into user code made by the three diagram implementations during isolated compilations (instances x reachable roots x widths 1..5 x incumbents x three types, "
+           "long-arc and dynamic-order models included) and during real solver runs (cache and dominance active) is checked by TLC against the protocol state of TraceCB.tla and the model "
+           "DPModel.tla; non-trivial = the compilation merged nodes or had a layer wider than the width; distinct = distinct (root, width, type, incumbent)")
+CHECKS = {"C12": cb_check("C12", [("mixed", 60, 200, 15, []), ("reconv", 20, 80, 10, [])], CB_RULE),
+          "C13": cb_check("C13", [("allimpacted", 80, 250, 15, [])], CB_RULE + "; C13: per layer, the number of for_each_in_domain calls between two next_variable calls against max_width; plus the width-combinator grid (Width.tla)"),
+          "C20": cb_check("C20", [("mixed", 25, 80, 8, []), ("longarcs", 8, 30, 6, [])],
+                          "each compiled diagram (exact / restricted / relaxed, feasible or infeasible, widths 1..5, three implementations) is drawn for all 64 flag combinations; a small DOT reader turns every drawing "
+                          "into an event and TLC compares it with the diagram reconstructed from the callbacks (node ids in creation order, arcs with decision and cost, longest-path values, deleted/hidden nodes, terminal node and its edges); "
+                          "non-trivial = diagram with a merge or a restricted layer; distinct = distinct (root, width, type, incumbent)", viz=True),
+          "C06": make("C06", ["allimpacted", "longarcs"]), "C07": make("C07", ["allimpacted", "longarcs"]), "C08": make("C08", ["allimpacted", "longarcs"])}
